@@ -372,6 +372,27 @@ EmitBy(name, v, bys, prefix) ==
                                    ELSE F[i - 1] \o EmitBy(name, v.m[i][2], Tail(bys), Append(prefix, <<S(Head(bys)), v.m[i][1]>>))
        IN F[Len(v.m)]
 
+\* emit @name without names: "use emit to output an out-of-stream variable. If it's non-indexed, you'll get a simple key-value
+\* pair ... If it's indexed then use as many names after @sum as there are indices", and the example `emit @sum` on a
+\* two-level map prints one record per first-level key: a map of maps is split down to its terminal maps
+RECURSIVE EmitTerminal(_, _)
+EmitTerminal(name, v) ==
+  IF v.k # "map" THEN << <<"r", RecText(<< <<S(name), v>> >>)>> >>
+  ELSE IF v.m # <<>> /\ (\A i \in 1..Len(v.m) : v.m[i][2].k = "map")
+       THEN LET F[i \in 0..Len(v.m)] == IF i = 0 THEN <<>> ELSE F[i - 1] \o EmitTerminal(name, v.m[i][2]) IN F[Len(v.m)]
+       ELSE << <<"r", RecText(v.m)>> >>
+
+\* emitp @name, "by1", ...: the same split, but what is left below the named levels stays under the variable's name
+\* ("emitp includes full prefixing ... while emit takes the deepest map key as the output-record key"): the record is the
+\* by-fields and ONE field, name |-> rest, which a non-JSON writer flattens to name.k1.k2 (RecText)
+RECURSIVE EmitPBy(_, _, _, _)
+EmitPBy(name, v, bys, prefix) ==
+  IF bys = <<>> THEN << <<"r", RecText(Append(prefix, <<S(name), v>>))>> >>
+  ELSE IF v.k # "map" THEN <<>>
+  ELSE LET F[i \in 0..Len(v.m)] == IF i = 0 THEN <<>>
+                                   ELSE F[i - 1] \o EmitPBy(name, v.m[i][2], Tail(bys), Append(prefix, <<S(Head(bys)), v.m[i][1]>>))
+       IN F[Len(v.m)]
+
 \* the entries of a nested map at depth n, depth first in insertion order, each as <<k1, ..., kn, value>>
 RECURSIVE EntriesAt(_, _, _), DeepEnough(_, _)
 EntriesAt(v, n, prefix) ==
@@ -474,7 +495,10 @@ Exec(P, s, st) ==
     [] s.t = "filter"   -> LET c == Eval(P, s.e, st) IN IF c.v.k = "bool" THEN [c.st EXCEPT !.flt = c.v.b] ELSE IF c.v.k = "absent" THEN c.st ELSE Fatal(c.st)
     [] s.t = "emit"     -> LET v == MapGet(st.oos, S(s.name)) IN
                            IF v.k = "absent" THEN st
-                           ELSE [st EXCEPT !.out = @ \o EmitBy(s.name, v, s.by, <<>>)]
+                           ELSE [st EXCEPT !.out = @ \o (IF s.by = <<>> THEN EmitTerminal(s.name, v) ELSE EmitBy(s.name, v, s.by, <<>>))]
+    [] s.t = "emitp"    -> LET v == MapGet(st.oos, S(s.name)) IN
+                           IF v.k = "absent" THEN st
+                           ELSE [st EXCEPT !.out = @ \o EmitPBy(s.name, v, s.by, <<>>)]
     \* emitf @a, @b: "several out-of-stream variables side-by-side in the same output record" (the variables of the case
     \* space are assigned before they are emitted: what emitf makes of an absent one is not documented)
     [] s.t = "emitf"    -> [st EXCEPT !.out = Append(@, <<"r", RecText([j \in 1..Len(s.names) |-> <<S(s.names[j]), MapGet(st.oos, S(s.names[j]))>>])>>)]
@@ -561,6 +585,7 @@ UnS(s) ==
     [] s.t = "pattern" -> UnE(s.c) \o " " \o UnBlock(s.body)
     [] s.t = "filter" -> "filter " \o UnE(s.e) \o ";"
     [] s.t = "emit"   -> "emit @" \o s.name \o Join([i \in 1..Len(s.by) |-> ", \"" \o s.by[i] \o "\""], "") \o ";"
+    [] s.t = "emitp"  -> "emitp @" \o s.name \o Join([i \in 1..Len(s.by) |-> ", \"" \o s.by[i] \o "\""], "") \o ";"
     [] s.t = "emitf"  -> "emitf " \o Join([i \in 1..Len(s.names) |-> "@" \o s.names[i]], ", ") \o ";"
     [] s.t = "emit1"  -> "emit1 " \o UnE(s.e) \o ";"
 UnFunc(f) == (IF f.sub THEN "subr " ELSE "func ") \o f.name \o "("
